@@ -24,7 +24,7 @@ W, R, B = 1, 2, 3           # clock masks: bit0 = write clock, bit1 = read clock
 MASK_NAME = {W: "W", R: "R", B: "WR"}
 SYNC_STAGES = 2             # documented default of FFSynchronizer (lib.cdc): "stages ... between input and output"
 LIVENESS_LIMIT = 2 * SYNC_STAGES + 3
-TIME_CAP = 1500             # s per configuration; hitting it is reported as capped / exhaustive: false
+TIME_CAP = {"quick": 300, "thorough": 3000}    # s per configuration; hitting it is reported as capped / exhaustive: false
 INPUT_NAMES = ("w_en", "w_data", "r_en")
 DIVERGED = "diverged"       # queue-model component of the sink reached through a failing transition
 
@@ -427,16 +427,17 @@ def liveness(spec, res):
                             nxt.append(n2)
             frontier = nxt
         return None
+    wit = both(LIVENESS_LIMIT)          # a witness, if any, is found after about 2 * LIMIT BFS levels
+    if wit is not None:
+        return None, wit, len(bad), nedges
     for K in range(1, LIVENESS_LIMIT + 1):
-        wit = both(K)
-        if wit is None:
+        if both(K) is None:
             return K, None, len(bad), nedges
-    return None, wit, len(bad), nedges
 
 
 # ---------------------------------------------------------------- workers
 def run_config(task):
-    cfg, replay_n, procs, want_live = task
+    cfg, replay_n, procs, want_live, time_cap = task
     t0 = time.time()
     spec = AFifoSpec(*cfg)
     out = {"cfg": spec.describe(), "tag": spec.tag(), "states": 0, "transitions": 0, "depth": 0, "flags": [], "capped": False,
@@ -446,7 +447,7 @@ def run_config(task):
     except Exception as e:
         out["elab"] = type(e).__name__
         return out
-    res = explore(spec, procs=procs, replay_n=replay_n, cap_states=2_000_000, keep_edges=want_live, time_cap=TIME_CAP)
+    res = explore(spec, procs=procs, replay_n=replay_n, cap_states=2_000_000, keep_edges=want_live, time_cap=time_cap)
     out.update(states=res.states, transitions=res.transitions, depth=res.max_depth, flags=decode_flags(res.flags),
                capped=res.capped, validated=res.traces_validated, ncross=len(spec.cross),
                ncross_all=len(spec.cross_all), nregs=spec.nregs, nactions=len(spec.actions),
@@ -637,13 +638,13 @@ def run(rep):
                     pats = pats_all if depth <= 17 else pats_q
                 ctasks.append((cls, depth, exact, 8, pats, policies))
     results = []
-    stasks = rotate([(c, replay_n, 1, True) for c in small], rep.seed)
+    stasks = rotate([(c, replay_n, 1, True, TIME_CAP[rep.tier]) for c in small], rep.seed)
     mixed = [("bfs", t) for t in stasks] + [("con", t) for t in rotate(ctasks, rep.seed)]
     cparts = []
     for kind, r in pmap(_dispatch, mixed, rep.procs):
         (results if kind == "bfs" else cparts).append(r)
     for c in big:
-        results.append(run_config((c, replay_n, rep.procs, True)))
+        results.append(run_config((c, replay_n, rep.procs, True, TIME_CAP[rep.tier])))
     order = {c: i for i, c in enumerate(small + big)}
     results.sort(key=lambda r: order[(r["cfg"]["cls"], r["cfg"]["depth"], r["cfg"]["width"], r["cfg"]["alphabet"])])
     allflags, Ks, alph, indep_cex = set(), {}, {}, []
@@ -709,7 +710,9 @@ def run(rep):
     rep.assume("write-domain reset is never asserted (the statement does not cover the documented entry-dropping reset)")
     rep.assume("the simulator has no metastability: the one-bit-per-event discipline of registers sampled by the other domain "
                "is checked as an explicit invariant instead")
-    # vacuity guards
+    # vacuity guards (a run that already reports behavioural violations exits 1 anyway; its graphs are cut short by the sinks)
+    if any(":elaborate:" not in v["sig"] for v in rep.violations):
+        return
     rep.require(bool(explored), "no BFS configuration could be explored")
     for need in FLAGS:
         rep.require(need in allflags, f"flag {need} never observed")
@@ -718,8 +721,7 @@ def run(rep):
     rep.require(rep.cov.get("alphabet_reduction_classes_compared", 0) > 0, "alphabet reduction never compared against the full alphabet")
     rep.require(rep.cov.get("constructed", 0) > 0 and rep.cov.get("rejected", 0) > 0, "construction sweep: both accepted and rejected depths")
     rep.require(rep.cov.get("schedule_runs_reaching_full", 0) > 0, "periodic schedules never filled a FIFO")
-    if reduced_used and indep_cex and not rep.violations:
-        rep.require(False, f"reduced alphabet is not equivalent to the full one on this tree: {indep_cex[0]}")
+    rep.require(not (reduced_used and indep_cex), f"reduced alphabet is not equivalent to the full one on this tree: {indep_cex[:1]}")
 
 
 def _dispatch(t):
